@@ -1242,6 +1242,9 @@ DEEP_SKELETONS = [
     # loop in a function: if-branch containing an inner if with continue/break, followed by statements
     "def f():\n    for i in it(1):\n        if c(2):\n            if c(3):\n                m(4)\n                continue\n            else:\n                if c(5):\n                    break\n            m(6)\n            m(7)\n        else:\n            if c(8):\n                continue\n            m(9)\n        m(10)\n    return m(11)\nr = f()\n",
     "class K:\n    def f(self):\n        while c(1):\n            if c(2):\n                if c(3):\n                    break\n                m(4)\n            elif c(5):\n                if c(6):\n                    continue\n                m(7)\n            m(8)\n        return m(9)\nr = K().f()\n",
+    # an inner loop's else clause that leaves the OUTER loop, followed by more statements of that else clause
+    "def f():\n    for i in it(1):\n        for j in it(2):\n            m(3)\n        else:\n            if c(4):\n                break\n            m(5)\n            if c(6):\n                continue\n            m(7)\n        m(8)\n    return m(9)\nr = f()\n",
+    "def f():\n    while c(1):\n        while c(2):\n            m(3)\n        else:\n            if c(4):\n                continue\n            m(5)\n        m(6)\nr = f()\n",
     # lone continue / bare return as the whole body of an if that has an else
     "for i in it(1):\n    if c(2):\n        continue\n    else:\n        m(3)\n",
     "def f():\n    if c(1):\n        return\n    else:\n        m(2)\nr = f()\n",
